@@ -352,10 +352,10 @@ void COTmrUnlock(void) {
     if (S.lockDepth == 0) W->preemptPoint(1001);
 }
 void COVerifYield(int site) { if (W) W->preemptPoint(site); }
-void CONmtModeChange(CO_NMT *, CO_MODE mode) { if (W) W->ev(EV_MODECHANGE, mode); }
+void CONmtModeChange(CO_NMT *, CO_MODE mode) { if (W) { W->ev(EV_MODECHANGE, mode); if (W->onModeChange) W->onModeChange((int)mode); } }
 void CONmtResetRequest(CO_NMT *, CO_NMT_RESET reset) { if (W) W->ev(EV_RESETREQ, reset); }
 void CONmtHbConsEvent(CO_NMT *, uint8_t nodeId) { if (W) { W->ev(EV_HBEVENT, nodeId); if (W->onHbConsEvent) W->onHbConsEvent(nodeId); } }
-void CONmtHbConsChange(CO_NMT *, uint8_t nodeId, CO_MODE mode) { if (W) W->ev(EV_HBCHANGE, nodeId, mode); }
+void CONmtHbConsChange(CO_NMT *, uint8_t nodeId, CO_MODE mode) { if (W) { W->ev(EV_HBCHANGE, nodeId, mode); if (W->onHbConsChange) W->onHbConsChange(nodeId, (int)mode); } }
 CO_ERR COLssLoad(uint32_t *baudrate, uint8_t *nodeId) {
     if (!W) return CO_ERR_NONE;
     Slot &S = W->S();
@@ -372,10 +372,10 @@ CO_ERR COLssStore(uint32_t baudrate, uint8_t nodeId) {
     W->ev(EV_LSSSTORE, baudrate, nodeId, 0);
     return CO_ERR_NONE;
 }
-void COIfCanReceive(CO_IF_FRM *frm) { if (!W) return; Frame f; f.id = frm->Identifier; f.dlc = frm->DLC; memcpy(f.d, frm->Data, 8); W->ev(EV_CANRECEIVE, 0, 0, 0, &f); }
+void COIfCanReceive(CO_IF_FRM *frm) { if (!W) return; Frame f; f.id = frm->Identifier; f.dlc = frm->DLC; memcpy(f.d, frm->Data, 8); W->ev(EV_CANRECEIVE, 0, 0, 0, &f); if (W->onCanReceive) W->onCanReceive(f); }
 void COPdoTransmit(CO_IF_FRM *frm) { if (!W) return; Frame f; f.id = frm->Identifier; f.dlc = frm->DLC; memcpy(f.d, frm->Data, f.dlc > 8 ? 8 : f.dlc); W->ev(EV_PDOTRANSMIT, 0, 0, 0, &f); if (W->onPdoTransmit) W->onPdoTransmit(f); }
-int16_t COPdoReceive(CO_IF_FRM *frm) { if (!W) return 0; Frame f; f.id = frm->Identifier; f.dlc = frm->DLC; memcpy(f.d, frm->Data, 8); W->ev(EV_PDORECEIVE, W->S().pdoReceiveRet, 0, 0, &f); return (int16_t)W->S().pdoReceiveRet; }
-void COPdoSyncUpdate(CO_RPDO *pdo) { if (!W) return; W->ev(EV_SYNCUPDATE, (int64_t)(pdo - W->S().node->RPdo)); }
+int16_t COPdoReceive(CO_IF_FRM *frm) { if (!W) return 0; Frame f; f.id = frm->Identifier; f.dlc = frm->DLC; memcpy(f.d, frm->Data, 8); W->ev(EV_PDORECEIVE, W->S().pdoReceiveRet, 0, 0, &f); if (W->onPdoReceive) W->onPdoReceive(f); return (int16_t)W->S().pdoReceiveRet; }
+void COPdoSyncUpdate(CO_RPDO *pdo) { if (!W) return; W->ev(EV_SYNCUPDATE, (int64_t)(pdo - W->S().node->RPdo)); if (W->onSyncUpdate) W->onSyncUpdate((int)(pdo - W->S().node->RPdo)); }
 int16_t COParaDefault(struct CO_PARA_T *pg) {
     if (!W) return 0;
     Slot &S = W->S(); int64_t idx = -1;
